@@ -156,6 +156,7 @@ REPRO = {
     "D-47": ("e\\\n    > x\n", dict(width=88, semantic=False)),
     "D-48": ("本 * **3*4**\n", dict(width=1, semantic=False)),
     "D-49": ("```  *  ```\n", dict(width=88, semantic=False)),
+    "D-61": ("[](http://ex.com/ref)(http://..\n\n[f]:http://ex.com/ref\n", dict(width=1, semantic=False)),
     "D-37": ("1) one\n2) two\n\n1. three\n2. four\n", dict(width=88, semantic=False)),
 }
 
@@ -185,8 +186,11 @@ def classify(kf, rec):
     if cl == "url-before-hard-break":
         src = c.get("parser_input") or doc
         # a two-space hard break directly after a bare URL or after a delimiter run: the backslash written instead joins the token
-        return ("Url.dest" in what and bool(re.search(r"\S  +\n", src))) or \
-            (bool(re.search(r"[*_~]  +\n", src)) and any(k in what for k in ("Emphasis", "Strong", "Strikethrough", "Text")))
+        return ("Url.dest" in what and bool(re.search(r"\S  +\r?\n", src))) or \
+            (bool(re.search(r"[*_~]  +\r?\n", src)) and any(k in what for k in ("Emphasis", "Strong", "Strikethrough", "Text")))
+    if cl == "autolink-recognition-after-reflow":
+        m = re.search(r"Text\.s: (['\"])(.*)\1 became (['\"])(.*)\3$", what, flags=re.S)
+        return bool(m) and "http" in m.group(2) and "http" not in m.group(4) and bool(re.search(r"\]\(http", doc))
     if cl == "marker-word-alone-on-line":
         src_lines = {QUOTE_PREFIX.sub("", l).strip() for l in (c.get("parser_input") or doc).split("\n")}
         for l in c.get("out", "").split("\n"):
@@ -397,7 +401,7 @@ def run(chk: Check) -> None:
     rx.validate(chk, ["re_md_specials", "re_md_numeral", "re_pangu", "re_line_break"], tier, per_pattern=600 if tier == "quick" else None)
     validate_block_start_spec(chk, 1500 * n)
     opts = docports.OPTION_SETS[:10]
-    gen_docs.AVOID = {"tags_in_prose", "html_block_words", "bare_url", "mixed_ordered_delims", "break_in_list", "tags_in_containers", "backslash_word", "footnote_in_container", "marker_first_word", "refdef_in_container"}
+    gen_docs.AVOID = {"tags_in_prose", "html_block_words", "bare_url", "mixed_ordered_delims", "break_in_list", "tags_in_containers", "backslash_word", "footnote_in_container", "marker_first_word", "refdef_in_container", "nested_bracket_links"}
     cases = docports.gen_cases(chk, 500 * n, malformed_share=0.0, opts=opts)
     gen_docs.AVOID = set()
     for fid, (doc, o) in REPRO.items():
